@@ -671,6 +671,22 @@ fn long_cases(ctx: &Ctx, c02: bool) {
                     if e != want {
                         return Err(format!("long value: {} bytes, spec {} bytes, first difference at {:?}", e.len(), want.len(), e.iter().zip(&want).position(|(a, b)| a != b)));
                     }
+                    // the wire format does not depend on the encode entry point: every one of them must emit the
+                    // specification's bytes for a long value too (staging/bypass paths only long chunks reach;
+                    // round-8 seed C02-i)
+                    let mut buf = vec![0u8; want.len() + 3];
+                    let outs: Vec<(&str, Option<Vec<u8>>)> = vec![
+                        ("to_slice", postcard::to_slice(&AsData(v), &mut buf).ok().map(|o| o.to_vec())),
+                        ("to_stdvec", postcard::to_stdvec(&AsData(v)).ok()),
+                        ("to_io", postcard::to_io(&AsData(v), Vec::new()).ok()),
+                        ("to_extend", postcard::to_extend(&AsData(v), Vec::new()).ok()),
+                        ("to_eio", postcard::to_eio(&AsData(v), EioVec(vec![])).ok().map(|o| o.0)),
+                    ];
+                    for (name, out) in outs {
+                        if out.as_ref() != Some(&want) {
+                            return Err(format!("long value through {name}: {:?} bytes, spec {} bytes, first difference at {:?}", out.as_ref().map(|o| o.len()), want.len(), out.as_ref().and_then(|o| o.iter().zip(&want).position(|(a, b)| a != b))));
+                        }
+                    }
                     return Ok(());
                 }
                 // encoders
